@@ -1,8 +1,8 @@
-(* C05 — the recommended repair (model/C05_fixed2.v = current code + fixes/F1_F10.diff, F8.diff,
-   F12.diff; protection stays interleaved with allocation, restricted to mounts of the class and
-   counted per device) meets the WHOLE specification for every layout. *)
+(* C05 — the model of balanceBlock as it is in /repo (model/C05_model.v: protection interleaved with
+   allocation, restricted to mounts of the class and counted per device; `safe` per device; unoffered
+   classes; lost) meets the WHOLE specification for every layout. *)
 From Coq Require Import List Arith Bool Lia Permutation NArith.
-From AV Require Import model.C05_model model.C05_run model.C05_fixed2
+From AV Require Import model.C05_model model.C05_old_model model.C05_run
   proofs.C05_proofs proofs.C05_safety proofs.C05_repl proofs.C05_phys proofs.C05_spec proofs.C05_fixed_proofs.
 Import ListNotations.
 
@@ -33,7 +33,7 @@ Definition protects (dflt c d : nat) (ap : acc2) (s : slot) : bool :=
   end.
 
 Lemma try_slot2_spec dflt c d ap s ap' s' dn :
-  try_slot2 dflt c d ap s = (ap', s', dn) ->
+  try_slot dflt c d ap s = (ap', s', dn) ->
   grows ap ap' /\ wle s s' /\
   (dn = true -> d <= replProt (fst ap')) /\
   (* bookkeeping only ever mentions this slot *)
@@ -49,7 +49,7 @@ Lemma try_slot2_spec dflt c d ap s ap' s' dn :
         (nz (dev (smnt s)) = true -> In (dev (smnt s)) (snd ap'))
    else replProt (fst ap') = replProt (fst ap) /\ protMnt (fst ap') = protMnt (fst ap) /\ snd ap' = snd ap).
 Proof.
-  destruct ap as [a pd]. unfold try_slot2, protects, skipped. simpl fst. simpl snd.
+  destruct ap as [a pd]. unfold try_slot, protects, skipped. simpl fst. simpl snd.
   destruct (mem (mid (smnt s)) (wantMnt a) || negb (dev (smnt s) =? 0) && mem (dev (smnt s)) (wantDev a)) eqn:Esk.
   - intros H. injection H as <- <- <-. simpl.
     split; [apply grows_refl|]. split; [apply wle_refl|]. split; [discriminate|].
@@ -114,7 +114,7 @@ Fixpoint prot_list (dflt : nat) (distinct : bool) (c d : nat) (ap : acc2) (done 
   | s :: r =>
     if done then []
     else if distinct && mem (msrv (smnt s)) (wantSrv (fst ap)) then prot_list dflt distinct c d ap done r
-    else let '(ap1, _, d1) := try_slot2 dflt c d ap s in
+    else let '(ap1, _, d1) := try_slot dflt c d ap s in
          (if protects dflt c d ap s then [s] else []) ++ prot_list dflt distinct c d ap1 d1 r
   end.
 
@@ -157,7 +157,7 @@ Proof.
 Qed.
 
 Lemma pass2_basic dflt dist c d : forall l ap dn ap' dn' l',
-  pass2 dflt dist c d ap dn l = (ap', dn', l') ->
+  pass dflt dist c d ap dn l = (ap', dn', l') ->
   grows ap ap' /\ Forall2 wle l l' /\
   (dn' = true -> dn = true \/ d <= replProt (fst ap')) /\
   incl (wantMnt (fst ap')) (mids l ++ wantMnt (fst ap)) /\
@@ -170,12 +170,12 @@ Proof.
       split; [clear; induction (s :: r); constructor; auto using wle_refl|]. split; [auto|].
       split; apply incl_appr, incl_refl.
     + destruct (dist && mem (msrv (smnt s)) (wantSrv (fst ap))).
-      * destruct (pass2 dflt dist c d ap false r) as [[ap1 d1] r1] eqn:E. injection H as <- <- <-.
+      * destruct (pass dflt dist c d ap false r) as [[ap1 d1] r1] eqn:E. injection H as <- <- <-.
         destruct (IH _ _ _ _ _ E) as (G & W & D & I1 & I2).
         split; [exact G|]. split; [constructor; [apply wle_refl|exact W]|]. split; [exact D|].
         split; [intros x Hx; apply I1 in Hx; simpl; right; exact Hx|intros x Hx; apply I2 in Hx; simpl; right; exact Hx].
-      * destruct (try_slot2 dflt c d ap s) as [[ap1 s1] d1] eqn:Et.
-        destruct (pass2 dflt dist c d ap1 d1 r) as [[ap2 d2] r2] eqn:E. injection H as <- <- <-.
+      * destruct (try_slot dflt c d ap s) as [[ap1 s1] d1] eqn:Et.
+        destruct (pass dflt dist c d ap1 d1 r) as [[ap2 d2] r2] eqn:E. injection H as <- <- <-.
         destruct (try_slot2_spec _ _ _ _ _ _ _ _ Et) as (G1 & W1 & D1 & J1 & J2 & _ & _).
         destruct (IH _ _ _ _ _ E) as (G & W & D & I1 & I2).
         split; [eapply grows_trans; eauto|]. split; [constructor; assumption|].
@@ -192,7 +192,7 @@ Lemma sum_repl_app a b : sum_repl (a ++ b) = sum_repl a + sum_repl b.
 Proof. unfold sum_repl. rewrite map_app, list_sum_app. reflexivity. Qed.
 
 Lemma pass2_prot dflt dist c d : forall l ap dn ap' dn' l' PS0,
-  pass2 dflt dist c d ap dn l = (ap', dn', l') -> separated PS0 ap ->
+  pass dflt dist c d ap dn l = (ap', dn', l') -> separated PS0 ap ->
   let PL := prot_list dflt dist c d ap dn l in
   separated (PS0 ++ PL) ap' /\ replProt (fst ap') = replProt (fst ap) + sum_repl PL /\
   forall s, In s PL -> In s l /\ inclass dflt c (smnt s) = true /\ exists t, srepl s = Some t /\ In t (unsafe (fst ap')).
@@ -202,11 +202,11 @@ Proof.
   - destruct dn.
     + injection H as <- <- <-. rewrite app_nil_r. split; [exact Sep|]. split; [unfold sum_repl; simpl; lia|simpl; tauto].
     + destruct (dist && mem (msrv (smnt s)) (wantSrv (fst ap))).
-      * destruct (pass2 dflt dist c d ap false r) as [[ap1 d1] r1] eqn:E. injection H as <- <- <-.
+      * destruct (pass dflt dist c d ap false r) as [[ap1 d1] r1] eqn:E. injection H as <- <- <-.
         destruct (IH _ _ _ _ _ PS0 E Sep) as (A & B & C). split; [exact A|]. split; [exact B|].
         intros x Hx. destruct (C x Hx) as (C1 & C2). split; [right; exact C1|exact C2].
-      * destruct (try_slot2 dflt c d ap s) as [[ap1 s1] d1] eqn:Et.
-        destruct (pass2 dflt dist c d ap1 d1 r) as [[ap2 d2] r2] eqn:E. injection H as <- <- <-.
+      * destruct (try_slot dflt c d ap s) as [[ap1 s1] d1] eqn:Et.
+        destruct (pass dflt dist c d ap1 d1 r) as [[ap2 d2] r2] eqn:E. injection H as <- <- <-.
         destruct (try_slot2_spec _ _ _ _ _ _ _ _ Et) as (G1 & _ & _ & _ & _ & _ & P).
         destruct (pass2_basic _ _ _ _ _ _ _ _ _ _ E) as (G2 & _).
         destruct (protects dflt c d ap s) eqn:Ep.
@@ -247,7 +247,7 @@ Proof.
 Qed.
 
 Lemma pass2_inv dflt dist c d : forall l ap dn ap' dn' l',
-  NoDup (mids l) -> INV ap l -> pass2 dflt dist c d ap dn l = (ap', dn', l') -> INV ap' l'.
+  NoDup (mids l) -> INV ap l -> pass dflt dist c d ap dn l = (ap', dn', l') -> INV ap' l'.
 Proof.
   induction l as [|s r IH]; intros ap dn ap' dn' l' Nd Hinv H; simpl in H.
   - injection H as <- <- <-. exact Hinv.
@@ -262,7 +262,7 @@ Proof.
         split; intros X; [apply J1 in X|apply J2 in X]; destruct X as [X|X]; congruence.
       - intros x Hx. apply Hinv. right; exact Hx. }
     destruct (dist && mem (msrv (smnt s)) (wantSrv (fst ap))).
-    + destruct (pass2 dflt dist c d ap false r) as [[ap1 d1] r1] eqn:E. injection H as <- <- <-.
+    + destruct (pass dflt dist c d ap false r) as [[ap1 d1] r1] eqn:E. injection H as <- <- <-.
       destruct (pass2_basic _ _ _ _ _ _ _ _ _ _ E) as (G & W & _ & I1 & I2).
       assert (IR : INV ap1 r1).
       { apply (IH ap false ap1 d1 r1 Nd'); [|exact E]. apply InvR; [apply grows_refl|apply incl_tl, incl_refl|apply incl_tl, incl_refl]. }
@@ -273,8 +273,8 @@ Proof.
       * intros X. apply I2 in X. apply in_app_or in X. destruct X as [X|X]; [contradiction|].
         destruct (B X) as [(t & T1 & T2) B2]. split; [exists t; split; [exact T1|apply (g_un _ _ G); exact T2]|].
         intros Hz; apply (g_pd _ _ G); auto.
-    + destruct (try_slot2 dflt c d ap s) as [[ap1 s1] d1] eqn:Et.
-      destruct (pass2 dflt dist c d ap1 d1 r) as [[ap2 d2] r2] eqn:E. injection H as <- <- <-.
+    + destruct (try_slot dflt c d ap s) as [[ap1 s1] d1] eqn:Et.
+      destruct (pass dflt dist c d ap1 d1 r) as [[ap2 d2] r2] eqn:E. injection H as <- <- <-.
       destruct (try_slot2_spec _ _ _ _ _ _ _ _ Et) as (G1 & W1 & _ & J1 & J2 & Wn & P).
       destruct (pass2_basic _ _ _ _ _ _ _ _ _ _ E) as (G2 & _ & _ & I1 & I2).
       assert (IR : INV ap2 r2) by (apply (IH ap1 d1 ap2 d2 r2 Nd' (InvR ap1 G1 J1 J2) E)).
@@ -316,13 +316,13 @@ Proof.
 Qed.
 
 Lemma pass2_cover dflt c d : forall l ap ap' l',
-  pass2 dflt false c d ap false l = (ap', false, l') ->
+  pass dflt false c d ap false l = (ap', false, l') ->
   forall s, In s l -> inclass dflt c (smnt s) = true -> has s = true -> covered d ap' s.
 Proof.
   induction l as [|s r IH]; intros ap ap' l' H x Hx Hc Hh; [contradiction|].
   simpl in H.
-  destruct (try_slot2 dflt c d ap s) as [[ap1 s1] d1] eqn:Et.
-  destruct (pass2 dflt false c d ap1 d1 r) as [[ap2 d2] r2] eqn:E. injection H as <- Ed <-. subst d2.
+  destruct (try_slot dflt c d ap s) as [[ap1 s1] d1] eqn:Et.
+  destruct (pass dflt false c d ap1 d1 r) as [[ap2 d2] r2] eqn:E. injection H as <- Ed <-. subst d2.
   destruct (try_slot2_spec _ _ _ _ _ _ _ _ Et) as (G1 & _ & _ & _ & _ & _ & P).
   destruct (pass2_basic _ _ _ _ _ _ _ _ _ _ E) as (G2 & _ & D & _).
   destruct d1.
@@ -358,7 +358,7 @@ Fixpoint safe_list (dflt c d : nat) (l : list slot) (safe : nat) (sd : list nat)
   end.
 
 Lemma safe_count2_spec dflt c d : forall l safe sd,
-  safe_count2 dflt c d l safe sd = safe + sum_repl (safe_list dflt c d l safe sd) /\
+  safe_count dflt c d l safe sd = safe + sum_repl (safe_list dflt c d l safe sd) /\
   forall s, In s (safe_list dflt c d l safe sd) -> In s l /\ has s = true /\ inclass dflt c (smnt s) = true.
 Proof.
   induction l as [|s r IH]; intros safe sd; simpl.
@@ -406,13 +406,13 @@ Proof.
 Qed.
 
 (* ---------- one class, all classes ---------- *)
-Lemma protect_devs2_incl wd pd l uns : incl uns (protect_devs2 wd pd l uns).
+Lemma protect_devs2_incl wd pd l uns : incl uns (protect_devices wd pd l uns).
 Proof. apply (protect_devs_incl wd pd l uns). Qed.
 Lemma protect_devs2_in wd pd l s t uns :
   In s l -> srepl s = Some t -> nz (dev (smnt s)) = true -> In (dev (smnt s)) wd \/ In (dev (smnt s)) pd ->
-  In t (protect_devs2 wd pd l uns).
+  In t (protect_devices wd pd l uns).
 Proof.
-  unfold protect_devs2. revert uns. induction l as [|x r IH]; intros uns Hs Hr Hz Hp; [contradiction|]. simpl.
+  unfold protect_devices. revert uns. induction l as [|x r IH]; intros uns Hs Hr Hz Hp; [contradiction|]. simpl.
   destruct Hs as [->|Hs]; [|apply IH; auto].
   rewrite Hr, Hz.
   assert (E : mem (dev (smnt s)) wd || mem (dev (smnt s)) pd = true).
@@ -423,15 +423,15 @@ Qed.
 Lemma do_class2_unfold dflt rank devrank c d sl uns under :
   d <> 0 ->
   exists ap1 d1 l1 ap2 d2 l2,
-    pass2 dflt true c d (acc0 uns, []) false (isort dflt rank devrank c sl) = (ap1, d1, l1) /\
-    pass2 dflt false c d ap1 d1 l1 = (ap2, d2, l2) /\
-    do_class2 dflt rank devrank c d (sl, uns, under) =
-      (l2, protect_devs2 (wantDev (fst ap2)) (snd ap2) l2 (unsafe (fst ap2)),
-       if under then true else safe_count2 dflt c d l2 0 [] <? d).
+    pass dflt true c d (acc0 uns, []) false (isort dflt rank devrank c sl) = (ap1, d1, l1) /\
+    pass dflt false c d ap1 d1 l1 = (ap2, d2, l2) /\
+    do_class dflt rank devrank c d (sl, uns, under) =
+      (l2, protect_devices (wantDev (fst ap2)) (snd ap2) l2 (unsafe (fst ap2)),
+       if under then true else safe_count dflt c d l2 0 [] <? d).
 Proof.
-  intros Hd. unfold do_class2. destruct (d =? 0) eqn:E; [apply Nat.eqb_eq in E; contradiction|].
-  destruct (pass2 dflt true c d (acc0 uns, []) false (isort dflt rank devrank c sl)) as [[ap1 d1] l1] eqn:E1.
-  destruct (pass2 dflt false c d ap1 d1 l1) as [[ap2 d2] l2] eqn:E2.
+  intros Hd. unfold do_class. destruct (d =? 0) eqn:E; [apply Nat.eqb_eq in E; contradiction|].
+  destruct (pass dflt true c d (acc0 uns, []) false (isort dflt rank devrank c sl)) as [[ap1 d1] l1] eqn:E1.
+  destruct (pass dflt false c d ap1 d1 l1) as [[ap2 d2] l2] eqn:E2.
   exists ap1, d1, l1, ap2, d2, l2. auto.
 Qed.
 
@@ -442,10 +442,10 @@ Proof.
   intros l1 l2 l3 H. revert l3. induction H; intros l3 H3; inversion H3; subst; constructor; eauto using wle_compose.
 Qed.
 
-Lemma do_class2_evolves dflt rank devrank c d st : evolves st (do_class2 dflt rank devrank c d st).
+Lemma do_class2_evolves dflt rank devrank c d st : evolves st (do_class dflt rank devrank c d st).
 Proof.
   destruct st as [[sl uns] under].
-  destruct (Nat.eq_dec d 0) as [->|Hd]; [unfold do_class2; simpl; apply evolves_refl|].
+  destruct (Nat.eq_dec d 0) as [->|Hd]; [unfold do_class; simpl; apply evolves_refl|].
   destruct (do_class2_unfold dflt rank devrank c d sl uns under Hd) as (ap1 & d1 & l1 & ap2 & d2 & l2 & E1 & E2 & ->).
   destruct (pass2_basic _ _ _ _ _ _ _ _ _ _ E1) as (G1 & W1 & _). destruct (pass2_basic _ _ _ _ _ _ _ _ _ _ E2) as (G2 & W2 & _).
   split; simpl.
@@ -455,18 +455,18 @@ Proof.
   - intros ->. reflexivity.
 Qed.
 Lemma run_classes2_evolves dflt rank devrank desired classes : forall st,
-  evolves st (fold_left (fun st c => do_class2 dflt rank devrank c (lookup desired c) st) classes st).
+  evolves st (fold_left (fun st c => do_class dflt rank devrank c (lookup desired c) st) classes st).
 Proof.
   induction classes as [|c r IH]; intros st; simpl; [apply evolves_refl|].
   eapply evolves_trans; [apply do_class2_evolves|apply IH].
 Qed.
 
 Lemma final_slots2_ok dflt rank devrank mounts replicas classes desired :
-  Forall (slot_ok mounts replicas) (final_slots2 dflt rank devrank mounts replicas classes desired).
+  Forall (slot_ok mounts replicas) (final_slots dflt rank devrank mounts replicas classes desired).
 Proof.
-  unfold final_slots2, run_classes2.
+  unfold final_slots, run_classes.
   pose proof (run_classes2_evolves dflt rank devrank desired classes
-               (map (mkslot replicas) mounts, [], unoffered2 classes desired)) as Ev.
+               (map (mkslot replicas) mounts, [], unoffered_class classes desired)) as Ev.
   destruct (fold_left _ classes _) as [[sl uns] under].
   pose proof (evolves_Forall _ _ _ (slot_ok_closed mounts replicas) Ev (slot_ok_sl0 mounts replicas)) as H1. simpl in H1.
   rewrite Forall_forall in *. intros x Hx. apply in_map_iff in Hx. destruct Hx as (s & <- & Hs).
@@ -497,17 +497,17 @@ Definition survives (sl3 : list slot) (u3 : list nat) (n3 : bool) (s : slot) : P
 Lemma class_state2 dflt rank devrank eff repl desired classes k :
   NoDup (map mid eff) -> In k classes -> 0 < lookup desired k ->
   exists l2 PS sl3 u3 n3,
-    run_classes2 dflt rank devrank classes desired (map (mkslot repl) eff) = (sl3, u3, n3) /\
+    run_classes dflt rank devrank classes desired (map (mkslot repl) eff) = (sl3, u3, n3) /\
     Forall (slot_ok eff repl) l2 /\ NoDup (mids l2) /\
-    (safe_count2 dflt k (lookup desired k) l2 0 [] < lookup desired k -> n3 = true) /\
+    (safe_count dflt k (lookup desired k) l2 0 [] < lookup desired k -> n3 = true) /\
     NoDup (pdevs PS) /\
     (forall s, In s PS -> slot_ok eff repl s /\ inclass dflt k (smnt s) = true /\ has s = true /\ survives sl3 u3 n3 s) /\
     (lookup desired k <= sum_repl PS \/
      forall s, In s l2 -> inclass dflt k (smnt s) = true -> has s = true -> survives sl3 u3 n3 s).
 Proof.
-  intros Hmid Hk Hd. unfold run_classes2.
+  intros Hmid Hk Hd. unfold run_classes.
   set (sl0 := map (mkslot repl) eff). set (d := lookup desired k) in *.
-  generalize (unoffered2 classes desired). intros n0.
+  generalize (unoffered_class classes desired). intros n0.
   apply in_split in Hk. destruct Hk as (pre & post & ->). rewrite fold_left_app. simpl.
   pose proof (run_classes2_evolves dflt rank devrank desired pre (sl0, [], n0)) as Ev1.
   destruct (fold_left _ pre _) as [[sl1 u1] n1].
@@ -517,7 +517,7 @@ Proof.
   match goal with |- context [fold_left ?f post ?st] =>
     pose proof (run_classes2_evolves dflt rank devrank desired post st) as Ev3; destruct (fold_left f post st) as [[sl3 u3] n3] end.
   set (srt := isort dflt rank devrank k sl1) in *.
-  set (U2 := protect_devs2 (wantDev (fst ap2)) (snd ap2) l2 (unsafe (fst ap2))) in *.
+  set (U2 := protect_devices (wantDev (fst ap2)) (snd ap2) l2 (unsafe (fst ap2))) in *.
   (* slots of srt, l1, l2 are ok and have pairwise different mounts *)
   pose proof (evolves_Forall _ _ _ (slot_ok_closed eff repl) Ev1 (slot_ok_sl0 eff repl)) as Ok1. simpl in Ok1.
   assert (OkS : Forall (slot_ok eff repl) srt).
@@ -624,11 +624,11 @@ Qed.
 
 Lemma class_unoffered2 dflt rank devrank eff repl desired classes k d :
   In (k, d) desired -> 0 < d -> ~ In k classes ->
-  snd (run_classes2 dflt rank devrank classes desired (map (mkslot repl) eff)) = true.
+  snd (run_classes dflt rank devrank classes desired (map (mkslot repl) eff)) = true.
 Proof.
-  intros Hin Hd Hk. unfold run_classes2.
-  assert (U : unoffered2 classes desired = true).
-  { unfold unoffered2. apply existsb_exists. exists (k, d). split; [exact Hin|]. simpl.
+  intros Hin Hd Hk. unfold run_classes.
+  assert (U : unoffered_class classes desired = true).
+  { unfold unoffered_class. apply existsb_exists. exists (k, d). split; [exact Hin|]. simpl.
     apply andb_true_iff. split; [apply Nat.ltb_lt; exact Hd|]. apply negb_true_iff. apply mem_false. exact Hk. }
   rewrite U.
   pose proof (run_classes2_evolves dflt rank devrank desired classes (map (mkslot repl) eff, [], true)) as Ev.
@@ -636,11 +636,11 @@ Proof.
 Qed.
 
 Lemma trashed_slot2 dflt rank devrank minMtime eff allmounts repl classes desired sl3 u3 n3 m t :
-  run_classes2 dflt rank devrank classes desired (map (mkslot repl) eff) = (sl3, u3, n3) ->
-  In (m, t) (trashes (fst (balance_block2 dflt rank devrank minMtime eff allmounts repl classes desired))) ->
+  run_classes dflt rank devrank classes desired (map (mkslot repl) eff) = (sl3, u3, n3) ->
+  In (m, t) (trashes (fst (balance_block dflt rank devrank minMtime eff allmounts repl classes desired))) ->
   exists s3, In s3 sl3 /\ mid (smnt s3) = m /\ srepl s3 = Some t /\ n3 = false /\ ~ In t u3 /\ swant s3 = false.
 Proof.
-  intros Er H. apply in_trashes in H. unfold balance_block2, final_slots2 in H. simpl in H. rewrite Er in H.
+  intros Er H. apply in_trashes in H. unfold balance_block, final_slots in H. simpl in H. rewrite Er in H.
   apply in_flat_map in H. destruct H as (s & Hs & He). apply emit_trash in He. destruct He as (Em & Es & Ew & Hlt).
   apply in_map_iff in Hs. destruct Hs as (s3 & <- & Hs3).
   exists s3. unfold widen in *. destruct (srepl s3) as [t3|] eqn:E3; [|congruence].
@@ -682,11 +682,11 @@ Qed.
 Theorem fixed2_under dflt rank devrank minMtime eff allmounts repl desired k d :
   NoDup (map mid eff) -> In (k, d) desired -> lookup desired k = d -> 0 < d ->
   phys_repl dflt k eff (held eff repl) < d ->
-  trashes (fst (balance_block2 dflt rank devrank minMtime eff allmounts repl (classes_of dflt eff) desired)) = [].
+  trashes (fst (balance_block dflt rank devrank minMtime eff allmounts repl (classes_of dflt eff) desired)) = [].
 Proof.
   intros Hmid Hin Hl Hd Hlt.
   set (classes := classes_of dflt eff).
-  destruct (run_classes2 dflt rank devrank classes desired (map (mkslot repl) eff)) as [[sl3 u3] n3] eqn:Er.
+  destruct (run_classes dflt rank devrank classes desired (map (mkslot repl) eff)) as [[sl3 u3] n3] eqn:Er.
   assert (Hn : n3 = true).
   { destruct (in_dec Nat.eq_dec k classes) as [Hk|Hk].
     - rewrite <- Hl in Hd.
@@ -700,7 +700,7 @@ Proof.
     - pose proof (class_unoffered2 dflt rank devrank eff repl desired classes k d Hin Hd Hk) as U.
       rewrite Er in U. exact U. }
   destruct (trashes _) as [|[m t] r] eqn:Et; [reflexivity|exfalso].
-  assert (In (m, t) (trashes (fst (balance_block2 dflt rank devrank minMtime eff allmounts repl classes desired))))
+  assert (In (m, t) (trashes (fst (balance_block dflt rank devrank minMtime eff allmounts repl classes desired))))
     by (rewrite Et; left; reflexivity).
   destruct (trashed_slot2 _ _ _ _ _ _ _ _ _ _ _ _ _ _ Er H) as (s3 & _ & _ & _ & Hn3 & _). congruence.
 Qed.
@@ -709,11 +709,11 @@ Theorem fixed2_pres dflt rank devrank minMtime eff allmounts repl desired k d :
   NoDup (map mid eff) -> In (k, d) desired -> lookup desired k = d -> 0 < d ->
   Nat.min d (phys_repl dflt k eff (held eff repl)) <=
   phys_repl dflt k eff (after eff repl
-     (trashes (fst (balance_block2 dflt rank devrank minMtime eff allmounts repl (classes_of dflt eff) desired)))).
+     (trashes (fst (balance_block dflt rank devrank minMtime eff allmounts repl (classes_of dflt eff) desired)))).
 Proof.
   intros Hmid Hin Hl Hd.
   set (classes := classes_of dflt eff).
-  set (tr := trashes (fst (balance_block2 dflt rank devrank minMtime eff allmounts repl classes desired))).
+  set (tr := trashes (fst (balance_block dflt rank devrank minMtime eff allmounts repl classes desired))).
   destruct (in_dec Nat.eq_dec k classes) as [Hk|Hk].
   2:{ assert (Z : forall m, In m eff -> inclass dflt k m = false).
       { intros m Hm. destruct (inclass dflt k m) eqn:E; [|reflexivity]. exfalso. apply Hk. eapply inclass_classes; eauto. }
@@ -721,7 +721,7 @@ Proof.
       { unfold phys_repl. induction (held eff repl) as [|p r IH]; simpl; [reflexivity|].
         rewrite (dev_repl_no_member dflt k eff p Z), IH. reflexivity. }
       rewrite P0. lia. }
-  destruct (run_classes2 dflt rank devrank classes desired (map (mkslot repl) eff)) as [[sl3 u3] n3] eqn:Er.
+  destruct (run_classes dflt rank devrank classes desired (map (mkslot repl) eff)) as [[sl3 u3] n3] eqn:Er.
   assert (Hd2 : 0 < lookup desired k) by (rewrite Hl; exact Hd).
   destruct (class_state2 dflt rank devrank eff repl desired classes k Hmid Hk Hd2)
     as (l2 & PS & sl3' & u3' & n3' & Er' & Ok2 & Nd2 & Hflag & Npd & Hps & Hcov).
@@ -733,8 +733,8 @@ Proof.
   destruct n3 eqn:En; [rewrite (NoTrash eq_refl), after_nil; lia|].
   (* slots of sl3 are ok *)
   assert (Ok3 : Forall (slot_ok eff repl) sl3).
-  { pose proof (run_classes2_evolves dflt rank devrank desired classes (map (mkslot repl) eff, [], unoffered2 classes desired)) as Ev.
-    unfold run_classes2 in Er. rewrite Er in Ev.
+  { pose proof (run_classes2_evolves dflt rank devrank desired classes (map (mkslot repl) eff, [], unoffered_class classes desired)) as Ev.
+    unfold run_classes in Er. rewrite Er in Ev.
     apply (evolves_Forall _ _ _ (slot_ok_closed eff repl) Ev (slot_ok_sl0 eff repl)). }
   (* a slot that survives keeps its device out of `gone` *)
   assert (Keep : forall s, slot_ok eff repl s -> has s = true -> survives sl3 u3 false s -> In (pdev (smnt s)) (after eff repl tr)).
@@ -760,7 +760,7 @@ Proof.
     destruct (safe_list_nodup dflt k d l2 0 [] Nd2) as [Ns _].
     set (SS := safe_list dflt k d l2 0 []) in *.
     assert (Hsafe : d <= sum_repl SS).
-    { destruct (Nat.lt_ge_cases (safe_count2 dflt k d l2 0 []) d) as [X|X]; [specialize (Hflag X); discriminate|lia]. }
+    { destruct (Nat.lt_ge_cases (safe_count dflt k d l2 0 []) d) as [X|X]; [specialize (Hflag X); discriminate|lia]. }
     assert (Facts : forall s, In s SS -> slot_ok eff repl s /\ inclass dflt k (smnt s) = true /\ has s = true).
     { intros s Hss. destruct (Hs s Hss) as (A & B & C). rewrite Forall_forall in Ok2. auto. }
     assert (Sub : incl (pdevs SS) (after eff repl tr)).
@@ -771,21 +771,21 @@ Qed.
 
 (* ---------- the whole specification ---------- *)
 Theorem fixed2_meets_spec c : wf_b c = true ->
-  let '(chs, lost) := m_out_f2 c in Spec c (trashes chs) (pulls chs) lost.
+  let '(chs, lost) := m_out c in Spec c (trashes chs) (pulls chs) lost.
 Proof.
   unfold wf_b. rewrite !andb_true_iff. intros [[H1 H3] H4].
   apply nodupb_NoDup in H1, H4.
   set (eff := setup (c_raw c) (c_sro c)) in *.
-  unfold m_out_f2, balance2. fold eff.
+  unfold m_out, balance. fold eff.
   set (rk := fun s => nth s (c_rank c) 0). set (dr := fun d => nth d (c_devrank c) 0).
-  set (bb := balance_block2 (c_dflt c) rk dr (c_min c) eff (c_raw c) (c_repl c) (classes_of (c_dflt c) eff) (c_desired c)).
+  set (bb := balance_block (c_dflt c) rk dr (c_min c) eff (c_raw c) (c_repl c) (classes_of (c_dflt c) eff) (c_desired c)).
   destruct bb as [chs lost] eqn:E.
   assert (Ec : chs = fst bb) by (rewrite E; reflexivity).
   assert (El : lost = snd bb) by (rewrite E; reflexivity).
   pose proof (final_slots2_ok (c_dflt c) rk dr eff (c_repl c) (classes_of (c_dflt c) eff) (c_desired c)) as F.
   rewrite Forall_forall in F.
   unfold Spec. fold eff. split; [|split; [|split; [|split]]].
-  - intros m t Hin. apply in_trashes in Hin. rewrite Ec in Hin. unfold bb, balance_block2 in Hin. simpl in Hin.
+  - intros m t Hin. apply in_trashes in Hin. rewrite Ec in Hin. unfold bb, balance_block in Hin. simpl in Hin.
     apply in_flat_map in Hin. destruct Hin as (s & Hs & He). apply emit_trash in He. destruct He as (-> & Hr & Hw & Hlt).
     destruct (F s Hs) as (A & B & C). split.
     + rewrite Hr in B. symmetry in B. apply find_repl_some in B. destruct B as [B|B]; [exact B|discriminate].
@@ -794,7 +794,7 @@ Proof.
       assert (swant s = true) by (apply C; auto; unfold has; rewrite Hr; reflexivity). congruence.
   - intros k d Hin Hd Hlt. rewrite Ec. unfold bb. eapply fixed2_under; eauto. apply lookup_In; auto.
   - intros k d Hin Hd. rewrite Ec. unfold bb. apply fixed2_pres; auto. apply lookup_In; auto.
-  - intros m f Hin. apply in_pulls in Hin. rewrite Ec in Hin. unfold bb, balance_block2 in Hin. simpl in Hin.
+  - intros m f Hin. apply in_pulls in Hin. rewrite Ec in Hin. unfold bb, balance_block in Hin. simpl in Hin.
     apply in_flat_map in Hin. destruct Hin as (s & Hs & He). apply emit_pull in He.
     destruct He as (-> & Hf & Hr & Hw & Hn & Hro). destruct (F s Hs) as (A & B & C).
     split; [exists (smnt s); auto|]. split; [rewrite Hr in B; symmetry in B; eapply find_repl_none; eauto|].
@@ -804,12 +804,12 @@ Proof.
     destruct (find (fun x => mid x =? m0) (c_raw c)) as [z|] eqn:Fz.
     + apply find_some in Fz. destruct Fz as [Hz Ez]. apply Nat.eqb_eq in Ez. exists m0, t0, z. simpl. auto.
     + exfalso. eapply find_none in Fz; [|exact Hy]. apply Nat.eqb_neq in Fz. congruence.
-  - intros Hr (k & d & Hin & Hd). rewrite El. unfold bb, balance_block2. simpl. rewrite Hr.
+  - intros Hr (k & d & Hin & Hd). rewrite El. unfold bb, balance_block. simpl. rewrite Hr.
     apply orb_true_iff. right. simpl. apply existsb_exists. exists (k, d). split; [exact Hin|]. apply Nat.ltb_lt. exact Hd.
 Qed.
 
 Lemma fixed2_on_witnesses :
-  trashes (fst (m_out_f2 proofs.C05_witness.w_f1)) = [] /\ trashes (fst (m_out_f2 proofs.C05_witness.w_f1b)) = [] /\
-  trashes (fst (m_out_f2 proofs.C05_witness.w_f10)) = [] /\ trashes (fst (m_out_f2 proofs.C05_witness.w_f12)) = [] /\
-  snd (m_out_f2 proofs.C05_witness.w_f8) = true.
+  trashes (fst (m_out proofs.C05_witness.w_f1)) = [] /\ trashes (fst (m_out proofs.C05_witness.w_f1b)) = [] /\
+  trashes (fst (m_out proofs.C05_witness.w_f10)) = [] /\ trashes (fst (m_out proofs.C05_witness.w_f12)) = [] /\
+  snd (m_out proofs.C05_witness.w_f8) = true.
 Proof. vm_compute. auto 10. Qed.
